@@ -536,65 +536,21 @@ func TestZZVCtlReplay(t *testing.T) {
 	var in zzvCtlIn
 	zzvLoad(t, "ZZV_IN", &in)
 	shard, nshard := zzvEnvInt("ZZV_SHARD", 0), zzvEnvInt("ZZV_NSHARD", 1)
-	w := zzvCtlNewWorld(t, true)
-	worlds := 1
-	steps, viol, diverged, npaths := 0, 0, 0, 0
-	report := func(class string, rec map[string]any) {
-		rec["class"] = class
-		zzvEmit("mismatch", rec)
-	}
-	for pi, path := range in.Paths {
-		if pi%nshard != shard {
-			continue
-		}
-		npaths++
-		pathDiverged := false
-		if o, i := zzvCtlCompare(w.project(), path.Init); len(o)+len(i) > 0 {
-			t.Fatalf("zzv: world is not in the initial state before path %d: %v %v", pi, o, i)
-		}
-		prev := path.Init
-		for si, st := range path.Steps {
-			ok, why := w.apply(st.A)
-			steps++
-			real := w.project()
-			if !ok {
-				report("viol", map[string]any{"path": pi, "step": si, "a": st.A, "why": why, "s": prev, "spec_t": st.T, "real_t": real,
-					"fields": []string{"q." + st.A.From + st.A.At}})
-				viol++
-				break
-			}
-			obs, internal := zzvCtlCompare(real, st.T)
-			if len(obs) > 0 {
-				report("viol", map[string]any{"path": pi, "step": si, "a": st.A, "s": prev, "spec_t": st.T, "real_t": real,
-					"fields": obs, "internal": internal, "prefix": zzvCtlActs(path.Steps[:si+1])})
-				viol++
-				break
-			}
-			if len(internal) > 0 && !pathDiverged {
-				pathDiverged = true
-				diverged++
-				report("diverged", map[string]any{"path": pi, "step": si, "a": st.A, "s": prev, "spec_t": st.T, "real_t": real,
-					"fields": internal})
-			}
-			prev = st.T
-		}
-		out, clean := w.finish()
-		for _, o := range out {
-			if !o.Good {
-				zzvEmit("outcome", map[string]any{"path": pi, "bad": o, "all": out, "acts": zzvCtlActs(path.Steps)})
-				viol++
-			}
-		}
-		if !clean {
+	worlds := 0
+	var w *zzvCtlWorld
+	fresh := func() {
+		if w != nil {
 			w.m.StopAll()
-			w = zzvCtlNewWorld(t, true)
-			worlds++
 		}
+		w = zzvCtlNewWorld(t, true)
+		worlds++
 	}
+	// deviation scenarios first, each on agents that have never handled a control request
 	for _, sc := range in.Scenarios {
 		if shard != 0 {
 			break
 		}
+		fresh()
 		skipped := 0
 		for _, a := range sc.Steps {
 			if ok, _ := w.apply(a); !ok {
@@ -602,13 +558,80 @@ func TestZZVCtlReplay(t *testing.T) {
 			}
 		}
 		held := w.project()
-		out, clean := w.finish()
+		out, _ := w.finish()
 		zzvEmit("scenario", map[string]any{"name": sc.Name, "outcome": out, "skipped": skipped, "steps": sc.Steps, "before_flush": held})
-		if !clean {
-			w.m.StopAll()
-			w = zzvCtlNewWorld(t, true)
-			worlds++
+	}
+	fresh()
+	steps, viol, diverged, npaths := 0, 0, 0, 0
+	var divergedPaths []int
+	report := func(class string, rec map[string]any) {
+		rec["class"] = class
+		zzvEmit("mismatch", rec)
+	}
+	runPath := func(pi int, rerun bool) {
+		path := in.Paths[pi]
+		pathDiverged := false
+		if o, i := zzvCtlCompare(w.project(), path.Init); len(o)+len(i) > 0 {
+			t.Fatalf("zzv: world is not in the initial state before path %d: %v %v", pi, o, i)
 		}
+		prev := path.Init
+		stopped := false
+		for si, st := range path.Steps {
+			ok, why := w.apply(st.A)
+			steps++
+			real := w.project()
+			if !ok {
+				report("viol", map[string]any{"path": pi, "step": si, "a": st.A, "why": why, "s": prev, "spec_t": st.T, "real_t": real,
+					"fields": []string{"q." + st.A.From + st.A.At}, "rerun": rerun})
+				viol++
+				stopped = true
+				break
+			}
+			obs, internal := zzvCtlCompare(real, st.T)
+			if len(obs) > 0 {
+				report("viol", map[string]any{"path": pi, "step": si, "a": st.A, "s": prev, "spec_t": st.T, "real_t": real,
+					"fields": obs, "internal": internal, "prefix": zzvCtlActs(path.Steps[:si+1]), "rerun": rerun})
+				viol++
+				stopped = true
+				break
+			}
+			if len(internal) > 0 && !pathDiverged {
+				pathDiverged = true
+				if !rerun {
+					diverged++
+					divergedPaths = append(divergedPaths, pi)
+					report("diverged", map[string]any{"path": pi, "step": si, "a": st.A, "s": prev, "spec_t": st.T, "real_t": real,
+						"fields": internal})
+				}
+			}
+			prev = st.T
+		}
+		out, clean := w.finish()
+		for _, o := range out {
+			if !o.Good {
+				zzvEmit("outcome", map[string]any{"path": pi, "bad": o, "all": out, "acts": zzvCtlActs(path.Steps), "stopped": stopped, "rerun": rerun})
+				viol++
+			}
+		}
+		if !clean {
+			fresh()
+		}
+	}
+	for pi := range in.Paths {
+		if pi%nshard != shard {
+			continue
+		}
+		npaths++
+		runPath(pi, false)
+	}
+	// paths on which the code's identifiers / tables differed from the spec are run once more on pristine agents
+	// (the world is reused between paths and only the state the spec knows about is reset)
+	for i, pi := range divergedPaths {
+		if i >= 4 {
+			break
+		}
+		fresh()
+		runPath(pi, true)
 	}
 	zzvEmit("summary", map[string]any{"paths": npaths, "steps": steps, "viol": viol, "diverged": diverged, "worlds": worlds,
 		"scenarios": len(in.Scenarios)})
